@@ -194,4 +194,80 @@ def run(repo='/repo', tier='quick'):
         except ImportError:
             res.notes.append('typestate engine not available')
     res.assumptions += ['callbacks return documented status codes and do not re-enter the parser', 'hybrid-mode callers of the public htp_tx_state_* functions are outside the rule (their call order is the user\'s)']
+    c05f(db, res)
+    c05g(db, res)
     return res
+
+
+def c05f(db, res):
+    """TRANSACTION_COMPLETE is delivered by htp_tx_finalize(), which has no "already finalized" memory of its own: it relies on
+    being reached once per transaction - from whichever side completes last. A function that reaches it twice for the same
+    transaction on one path (directly, or through a completion helper that finalizes itself) delivers the callback twice,
+    the second time possibly on a transaction the first call destroyed."""
+    res.rule('C05.f', 'finalization is reached once per path: in no function are two calls that (transitively) reach htp_tx_finalize made on the same transaction expression with the second reachable from the first')
+    fin = {'htp_tx_finalize'}
+    grew = True
+    while grew:
+        grew = False
+        for n_, g in db.fn.items():
+            if n_ in fin or not g.blocks:
+                continue
+            # a caller counts when it passes its own transaction parameter / expression on to a finalizing function
+            if any((c.get('callee') in fin) for b_, i_, c in g.calls()):
+                fin.add(n_)
+                grew = True
+    # only functions whose first parameter is the transaction carry the "same transaction" argument
+    fin = {n_ for n_ in fin if n_ == 'htp_tx_finalize' or (db.fn[n_].params and 'htp_tx_t' in db.fn[n_].params[0]['t'])}
+    n = 0
+    for name, f in sorted(db.fn.items()):
+        if not f.blocks:
+            continue
+        sites = [(b, i, c) for b, i, c in f.calls() if c.get('callee') in fin and c.get('args')]
+        if len(sites) < 1:
+            continue
+        n += len(sites)
+        for (b1, i1, c1) in sites:
+            for (b2, i2, c2) in sites:
+                if (b1, i1) == (b2, i2) or P.K(c1['args'][0]) != P.K(c2['args'][0]):
+                    continue
+                later = (b2 == b1 and i2 > i1) or (b2 != b1 and b2 in C.reachable(f, b1) and b1 not in C.reachable(f, b2))
+                if later:
+                    res.violated('C05.f', '%s:%s-then-%s' % (name, c1['callee'], c2['callee']),
+                                 '%s calls %s(%s) and, later on the same path, %s on the same transaction: both reach htp_tx_finalize, so TRANSACTION_COMPLETE is delivered twice (the second time on a transaction the first delivery may have destroyed)' % (name, c1['callee'], P.K(c1['args'][0]), c2['callee']), c2['loc'])
+    if not [o for o in res.obs if o['rule'] == 'C05.f']:
+        res.holds('C05.f', 'finalize-once-per-path', '%d calls that reach htp_tx_finalize (through %d functions), no two in sequence on one transaction' % (n, len(fin)), '')
+    res.floor('C05.f', 'calls that reach htp_tx_finalize', n, 4)
+
+
+def c05g(db, res):
+    """The *_HEADER_DATA / *_TRAILER_DATA callbacks are fed by a "data receiver" that is flushed by
+    htp_connp_re{q,s}_receiver_finalize_clear(). The stage callback order (trailer data, then trailer, then complete) holds
+    only if the function that runs the TRAILER hook also flushes the receiver before it returns successfully; left to the
+    safety net in the completion function the last piece of trailer data arrives after REQUEST_COMPLETE."""
+    res.rule('C05.g', 'a data receiver does not outlive its stage: in every function that runs a TRAILER hook, each path through that hook run to a successful return passes htp_connp_re{q,s}_receiver_finalize_clear (before or after the hook)')
+    n = 0
+    for name, f in sorted(db.fn.items()):
+        if not f.blocks:
+            continue
+        for b, i, st in f.stmts():
+            for hook, c in P.hook_runs(st):
+                if not hook.endswith('_trailer'):
+                    continue
+                side = 'req' if 'request' in hook else 'res'
+                fin = 'htp_connp_%s_receiver_finalize_clear' % side
+                n += 1
+                dom = C.dominators(f)
+                before = any((bb == b and ii < i) or (bb != b and bb in dom[b]) for bb, ii, c2 in f.calls(fin))
+                bad = None
+                if not before:
+                    for atoms, events, end, seq in P.enum_paths_seq(f, (b, i), max_paths=50000):
+                        if end[0] != 'return':
+                            continue
+                        rv = P.ret_value(end[3])
+                        if rv is not None and (lit_name(rv) == 'HTP_ERROR' or (rv.get('k') == 'var' and any(a[0] == rv['name'] and a[1] == '!=' and a[2] == 'HTP_OK' for a, e in atoms))):
+                            continue
+                        if not any(x[0] == 'stmt' and any(c3.get('callee') == fin for c3 in nodes(x[3], lambda y: y.get('k') == 'call')) for x in seq):
+                            bad = end[3]
+                res.check(bad is None, 'C05.g', '%s:%s:receiver-flushed' % (name, hook), 'the receiver is flushed in the function that runs the hook',
+                          '%s runs %s and returns successfully without %s(): the last piece of raw trailer data is delivered by the safety net in the completion function, after the COMPLETE callback' % (name, hook, fin), (bad or c).get('loc', f.loc))
+    res.floor('C05.g', 'TRAILER hook runs', n, 3)
